@@ -109,12 +109,14 @@ def run_db(v, pid, mode, n, steps, rule, known_prefix_map=None, extra_args=()):
         rep = dict(iv.get("replay") or {})
         rep["how"] = "harness db -mode %s -seed %s -only %s" % (rep.get("mode"), rep.get("seed"), rep.get("index"))
         v.violation(sig, iv["detail"], rep, True)
-    if mism and not viol:
+    if mism:
+        # reported whether or not an oracle violation was found as well (a known finding among
+        # the oracle violations must not hide a model mismatch)
         m = mism[0]
         v.violation("%s/model-mismatch:%s" % (pid, m["entry"]),
-                    "the verify+sync model (Db/Verify.v, Db/Sync.v) and db.go disagree on %d observed sync steps; every "
-                    "acknowledged instant of this batch still restored to the source" % len(mism),
-                    {"theorem_or_correspondence": "correspondence db_sync_step", "model_says": m["model"][:2000],
+                    "the model (Db/Verify.v + Db/Sync.v for sync steps, Db/MachineEntry.v for checkpoint decisions) and db.go "
+                    "disagree on %d observed steps (first: entry %s)" % (len(mism), m["entry"]),
+                    {"theorem_or_correspondence": "correspondence " + m["entry"], "model_says": m["model"][:2000],
                      "case_lines": C.case_with_defs(cases, m["line"])}, False)
     return stats
 
